@@ -17,7 +17,7 @@ use super::super::BdlBlock;
 use super::geom::Polygon;
 
 /// Espacio
-#[derive(Debug, Clone, Default)]
+#[derive(Clone, Default)]
 pub struct Space {
     /// Nombre del espacio
     pub name: String,
@@ -62,6 +62,10 @@ pub struct Space {
     pub spaceconds: String,
     /// Condiciones de operación de los sistemas
     pub systemconds: String,
+    /// ¿Se ha definido explícitamente SPACE-CONDITIONS? (LIDER antiguo usa SPACE-TYPE)
+    pub spaceconds_explicit: bool,
+    /// ¿Se ha definido explícitamente SYSTEM-CONDITIONS? (LIDER antiguo usa SPACE-TYPE)
+    pub systemconds_explicit: bool,
     /// Multiplicador de planta
     pub floor_multiplier: f32,
     /// Multiplicador de espacio
@@ -71,6 +75,35 @@ pub struct Space {
     /// Tasa de renovación de aire (ventilación), en renh
     /// En edificios residenciales no se guarda (es None) y se usa el global, repartiendo por volumen
     pub airchanges_h: Option<f32>,
+}
+
+/// Los identificadores de los espacios se obtienen del texto Debug (uuid_from_obj): se mantiene el formato
+/// derivado original, sin los campos *_explicit, para que los ids de los modelos no cambien
+impl std::fmt::Debug for Space {
+    fn fmt(&self, f: &mut std::fmt::Formatter<'_>) -> std::fmt::Result {
+        f.debug_struct("Space")
+            .field("name", &self.name)
+            .field("stype", &self.stype)
+            .field("polygon", &self.polygon)
+            .field("height", &self.height)
+            .field("x", &self.x)
+            .field("y", &self.y)
+            .field("z", &self.z)
+            .field("angle_with_building_north", &self.angle_with_building_north)
+            .field("insidete", &self.insidete)
+            .field("floor", &self.floor)
+            .field("power", &self.power)
+            .field("veei_obj", &self.veei_obj)
+            .field("veei_ref", &self.veei_ref)
+            .field("spacetype", &self.spacetype)
+            .field("spaceconds", &self.spaceconds)
+            .field("systemconds", &self.systemconds)
+            .field("floor_multiplier", &self.floor_multiplier)
+            .field("multiplier", &self.multiplier)
+            .field("ismultiplied", &self.ismultiplied)
+            .field("airchanges_h", &self.airchanges_h)
+            .finish()
+    }
 }
 
 impl TryFrom<BdlBlock> for Space {
@@ -175,13 +208,13 @@ impl TryFrom<BdlBlock> for Space {
         // Condiciones operacionales Nombre o #n
         let spacetype = attrs.remove_str("SPACE-TYPE")?;
         // No existe en LIDER antiguo
-        let spaceconds = attrs
-            .remove_str("SPACE-CONDITIONS")
-            .unwrap_or_else(|_| spacetype.clone());
+        let spaceconds_attr = attrs.remove_str("SPACE-CONDITIONS").ok();
+        let spaceconds_explicit = spaceconds_attr.is_some();
+        let spaceconds = spaceconds_attr.unwrap_or_else(|| spacetype.clone());
         // No existe en LIDER antiguo
-        let systemconds = attrs
-            .remove_str("SYSTEM-CONDITIONS")
-            .unwrap_or_else(|_| spacetype.clone());
+        let systemconds_attr = attrs.remove_str("SYSTEM-CONDITIONS").ok();
+        let systemconds_explicit = systemconds_attr.is_some();
+        let systemconds = systemconds_attr.unwrap_or_else(|| spacetype.clone());
         // XXX: Usamos por defecto un valor 1.0, ya que se obtiene de la planta
         let floor_multiplier = 1.0;
         let multiplier = attrs.remove_f32("MULTIPLIER")?;
@@ -224,6 +257,8 @@ impl TryFrom<BdlBlock> for Space {
             spacetype,
             spaceconds,
             systemconds,
+            spaceconds_explicit,
+            systemconds_explicit,
             floor_multiplier,
             multiplier,
             ismultiplied,
